@@ -2,7 +2,7 @@
      tcp_process.rs   from_client / from_server / is_valid / process_tcp_ipv4 / process_tcp_ipv6 / visit_tcp
      ttl.rs           guess_distance / calculate_ttl
      ip_options.rs    IpOptions::calculate_ipv4_length / calculate_ipv6_length
-     window_size.rs   detect_win_multiplicator (u16 arithmetic, macros expanded)
+     window_size.rs   detect_win_multiplicator (u16 arithmetic, macros expanded; checked_add in the MSS + header rule)
      mtu.rs           extract_from_ipv4 / extract_from_ipv6
      process.rs       process_ipv4_packet / process_ipv6_packet (syn / syn_ack / mtu + link of TcpAnalysisResult)
      signature_matcher.rs  matching_by_mtu
@@ -72,9 +72,11 @@ Definition detect_win_multiplicator (win mss total_header : N) (has_ts : bool) (
          | IpAny => None end) with
   | Some k => WMtu k
   | None =>
-  (* 4. `if mss > 0 { if total_header > 0 { check(mss.saturating_add(total_header)) } else { per version } }` *)
+  (* 4. `if mss > 0 { if total_header > 0 { if let Some(mtu) = mss.checked_add(total_header) { check(mtu) } }
+        else { per version, saturating } }` *)
   match (if 0 <? mss then
-           if 0 <? total_header then check_div win (sat16 (mss + total_header))
+           if 0 <? total_header then
+             (if mss + total_header <=? 65535 then check_div win (mss + total_header) else None)
            else match ver with
                 | IpV4 => check_div win (sat16 (mss + 40))
                 | IpV6 => check_div win (sat16 (mss + 60))
@@ -89,6 +91,7 @@ Definition FIN : N := 1.  Definition SYN : N := 2.  Definition RST : N := 4.  De
 Definition ACK : N := 16. Definition URG : N := 32. Definition ECE : N := 64. Definition CWR : N := 128.
 Definition FIN_RST : N := 5.          (* FIN | RST *)
 Definition ECE_CWR : N := 192.        (* ECE | CWR *)
+Definition TCP_NS : N := 1.           (* NS (nonce sum) bit within the 4 reserved bits, RFC 3540 *)
 Definition TYPE_MASK : N := 23.       (* SYN | ACK | FIN | RST *)
 
 Definition from_client (f : N) : bool := negb (N.land f SYN =? 0) && (N.land f ACK =? 0).
@@ -171,12 +174,16 @@ Arguments Err {A}. Arguments Ok {A} a.
 (* quirks pushed by visit_tcp before the option loop, in source order *)
 Definition tcp_header_quirks (t : bytes) : list quirk :=
   let flags := tcp_flags t in
-  (if negb (N.land flags ECE_CWR =? 0) then [QEcn] else [])
+  (if negb (N.land flags ECE_CWR =? 0) || negb (N.land (tcp_reserved t) TCP_NS =? 0) then [QEcn] else [])
   ++ (if tcp_sequence t =? 0 then [QSeqNumZero] else [])
   ++ (if N.land flags ACK =? ACK then (if tcp_acknowledgement t =? 0 then [QAckNumZero] else [])
       else if negb (tcp_acknowledgement t =? 0) && (N.land flags RST =? 0) then [QAckNumNonZero] else [])
   ++ (if N.land flags URG =? URG then [QUrg] else if negb (tcp_urgent_ptr t =? 0) then [QNonZeroURG] else [])
   ++ (if N.land flags PSH =? PSH then [QPush] else []).
+
+(* `min_total_header`: minimal IP + TCP header size in bytes, what visit_tcp hands to detect_win_multiplicator *)
+Definition min_total_header (version : ip_version) : N :=
+  match version with IpV4 => 40 | IpV6 => 60 | IpAny => 0 end.
 
 Definition visit_tcp (t : bytes) (version : ip_version) (ittl : ttl) (ip_package_header_length olen : N)
                      (quirks : list quirk) : res tcp_package :=
@@ -194,7 +201,7 @@ Definition visit_tcp (t : bytes) (version : ip_version) (ittl : ttl) (ip_package
                  | Some mss_value, IpV6 => extract_from_ipv6 t ip_package_header_length mss_value
                  | _, _ => None end in
       let wsize := detect_win_multiplicator (tcp_window t) (match w_mss st with Some m => m | None => 0 end)
-                     ip_package_header_length
+                     (min_total_header version)
                      (existsb (tcp_option_eqb OTS) (w_olayout st)) version in
       let sig := {| t_version := version; t_ittl := ittl; t_olen := olen; t_mss := w_mss st; t_wsize := wsize;
                     t_wscale := w_wscale st; t_olayout := w_olayout st; t_quirks := w_quirks st;
